@@ -118,10 +118,10 @@ def build(cfg, dtype=torch.float64):
             return m, lambda ins: _flat_out(m(ins[0]))
         if k == 'dwt1_inv':
             m = pw.DWT1DInverse(wave=cfg['wave'], mode=cfg['mode'])
-            return m, lambda ins: [m((ins[0], list(ins[1:])))]
+            return m, lambda ins: [m((ins[0], _with_none(ins[1:], cfg)))]
         if k == 'dwt2_inv':
             m = pw.DWTInverse(wave=_wave(cfg, True), mode=cfg['mode'])
-            return m, lambda ins: [m((ins[0], list(ins[1:])))]
+            return m, lambda ins: [m((ins[0], _with_none(ins[1:], cfg)))]
         if k == 'swt':
             m = SWTForward(J=cfg['J'], wave=_wave(cfg, False), mode=cfg['mode'])
             return m, lambda ins: list(m(ins[0]))
@@ -171,6 +171,12 @@ def build(cfg, dtype=torch.float64):
                                combine_colour=cfg['colour'])
             return m, lambda ins: [m(ins[0])]
     raise ValueError(k)
+
+
+def _with_none(highs, cfg):
+    """cfg['none'] lists the (0-based, finest first) levels handed over as None."""
+    none = cfg.get('none') or []
+    return [None if j in none else t for j, t in enumerate(highs)]
 
 
 def _flat_out(out):
